@@ -217,4 +217,18 @@ PROPS = {
                                   "Lean Float mirrors Go's float arithmetic (int->float64 conversion, division) bit for bit"],
         assumptions=["lines shorter than bufio.Scanner's 64 KiB token limit"],
     ),
+    "C18": dict(
+        modules=["GeomVerif.Properties.C18"],
+        n_quick=10000, n_thorough=200000, thorough_seeds=4, min_theorems=3,
+        rule="geometries of all types (nesting depth <= 2, EMPTY members in WKT) whose ordinates stress decimal rounding: +-0, exact binary ties (k/2^j), "
+             "x.5, x.xx5, values rounding across a power of ten, tiny (down to 1e-25), huge (up to 1e300), negatives rounding to zero, integers ending in "
+             "zero, random bit patterns; d uniform in 0..15; WKT in XY/XYZ/XYM/XYZM, GeoJSON in XY/XYZ/XYZM with and without the bbox option in either "
+             "option order. Go's text must equal the model's (exact FormatFloat contract) and every emitted numeral is checked in exact rational "
+             "arithmetic (<= d fractional digits, no trailing zero, |error| <= half a unit in the d-th place) with unchanged structure. non-trivial = all",
+        nontrivial=lambda op, inp: True,
+        trusted_base=TB_COMMON + ["strconv.FormatFloat(x,'f',d,64) is modelled by exact round-half-even on the binary value (Spec/Decimal.lean) and compared with Go on every number of every run",
+                                  "encoding/json's handling of json.RawMessage / Marshaler output (compaction, field order of the Geometry struct) is modelled as text assembly",
+                                  "modelled: wkt Encoder.write and writeFlatCoords*, geojson encode + nestedFloat64WithMaxDecimalDigits + EncodeGeometryWithBBox/encodeBBox"],
+        assumptions=["finite ordinates", "bounding box requested only for non-collection geometries with coordinates"],
+    ),
 }
